@@ -867,6 +867,44 @@ example : (link exLattice).map write = some exLattice := by decide
 example : (link exLattice).map (fun p => (write (run p [⟨.univ, 1, 50⟩, ⟨.univ, 2, 5⟩])).cells.map (fun c => (c.u, c.fill))) =
     some [(none, [50, 5, 5, 50]), (some 50, []), (some 5, [])] := by decide
 
+/-- **Per-kind resolution.** Numbers of different kinds coincide everywhere: cell 5, surface 5, material 5 (+MT5),
+    transform 5 and universe 5 — `5 5 … -5 #6 fill=5 (5)`, surface `5 5 pz` (transform 5), surface `6 -5 pz`
+    (periodic with surface 5), a matrix fill `5 6 6 5 (6)` whose entries include its transform's number.
+    The file is written as a function of the numbers of the cell, the surface, the material, the two transforms and
+    the universe that all carry 5 (resp. 6) in the original: each parameter occurs exactly at the sites of its kind. -/
+def exCoincideWith (c5 s5 m5 t5 t6 u5 : Int) : WFile :=
+  { cells := [{ number := c5, mat := m5, geom := [(false, s5), (true, 6)], u := none, fill := [u5], fillTr := some t5 },
+              { number := 6, mat := 0, geom := [(false, s5)], u := some u5, fill := [], fillTr := none },
+              { number := 7, mat := 0, geom := [(false, 6), (true, c5)], u := some 6, fill := [], fillTr := none },
+              { number := 8, mat := 0, geom := [(false, 6)], u := none, fill := [u5, 6, 6, u5], fillTr := some t6 }]
+    surfs := [{ number := s5, tr := some t5, per := none }, { number := 6, tr := none, per := some s5 }]
+    mats := [{ number := m5, mt := some m5 }], trs := [t5, t6], uCard := none, fillCard := none }
+
+def exCoincide : WFile := exCoincideWith 5 5 5 5 6 5
+
+example : exCoincide.wellFormedB = true := by decide
+example : (link exCoincide).map write = some exCoincide := by decide
+/-- the number 5 resolves per kind: card 0 of each block, and the cells in universe 5 -/
+example : (resolve exCoincide .cell 5, resolve exCoincide .surf 5, resolve exCoincide .mat 5, resolve exCoincide .tr 5,
+    exCoincide.cellsIn 5) = (some 0, some 0, some 0, some 0, [1]) := by decide
+/-- TRANSFORM 5 ↦ 9: the TR card, `fill=5 (9)` and the surface's transform pointer follow; the fill UNIVERSE 5, the
+    matrix entries 5, `U=5`, cell 5, surface 5 (and the periodic pointer to it), material 5 and MT5 are left alone -/
+example : (link exCoincide).map (fun p => write (run p [⟨.tr, 0, 9⟩])) = some (exCoincideWith 5 5 5 9 6 5) := by decide
+/-- UNIVERSE 5 ↦ 9 (universe objects: 0 ↦ 0, 1 ↦ 5, 2 ↦ 6): `fill=9 (5)`, the matrix entries `9 6 6 9 (6)` and `U=9`
+    follow; every transform site (fill transform 5, surface transform 5, TR5) and every other kind is left alone -/
+example : (link exCoincide).map (fun p => write (run p [⟨.univ, 1, 9⟩])) = some (exCoincideWith 5 5 5 5 6 9) := by decide
+/-- TR5 and TR6 swapped through the temporary number 99: exactly the three transform sites and the two TR cards swap;
+    `fill=5 (6)` keeps universe 5, the matrix `5 6 6 5 (5)` keeps all four entries -/
+example : (link exCoincide).map (fun p => write (run p [⟨.tr, 0, 99⟩, ⟨.tr, 1, 5⟩, ⟨.tr, 0, 6⟩])) =
+    some (exCoincideWith 5 5 5 6 5 5) := by decide
+/-- SURFACE 5 ↦ 9, CELL 5 ↦ 9, MATERIAL 5 ↦ 9: each moves its own card and the sites of its kind only -/
+example : (link exCoincide).map (fun p => write (run p [⟨.surf, 0, 9⟩])) = some (exCoincideWith 5 9 5 5 6 5) := by decide
+example : (link exCoincide).map (fun p => write (run p [⟨.cell, 0, 9⟩])) = some (exCoincideWith 9 5 5 5 6 5) := by decide
+example : (link exCoincide).map (fun p => write (run p [⟨.mat, 0, 9⟩])) = some (exCoincideWith 5 5 9 5 6 5) := by decide
+/-- all five kinds move to five different numbers, in one history: every site shows the number of ITS kind -/
+example : (link exCoincide).map (fun p => write (run p [⟨.cell, 0, 11⟩, ⟨.surf, 0, 12⟩, ⟨.mat, 0, 13⟩, ⟨.tr, 0, 14⟩, ⟨.univ, 1, 15⟩])) =
+    some (exCoincideWith 11 12 13 14 6 15) := by decide
+
 /-- per-cell data in the data block (`u j 5 5` / `fill 5 2j`), in normal form -/
 def exData : WFile :=
   { cells := [{ number := 1, mat := 0, geom := [(false, 1)], u := none, fill := [], fillTr := none },
